@@ -522,7 +522,8 @@ def constructor_tables(cx: Cx, ob_id: str) -> dict[str, list[Entry]]:
         inline = index_method_entries(cx, init, ob_id)
     for name, ents in inline.items():
         if name in TABLES and name in tables and not any(e.fn == init.qualname for e in tables[name]):
-            tables[name] = list(tables[name]) + [e for e in ents if e.key_unknown and not e.key_fields]
+            # (a bare loop variable as key is the item-by-item copy of another table: the alias handled above)
+            tables[name] = list(tables[name]) + [e for e in ents if e.key_unknown and not e.key_fields and op(e.key) != "bv"]
     return tables
 
 
